@@ -84,6 +84,54 @@ def check_wire(res, tee, chan_transcripts, label, m):
                 res.violation(m("undecodable-data-frame"), f"{label}: channel {cid}: {ex}")
 
 
+INSIDE_CLOSE = r"""
+report = channel.receive()
+try:
+    channel.receive()  # ends with EOFError (or the initiator's error text) once the initiator's end of this channel is gone
+except (EOFError, channel.RemoteError):
+    pass
+out = []
+for arg in ((), ("an error text",), ()):
+    try:
+        channel.close(*arg)
+        out.append("closed")
+    except OSError:
+        out.append("refused")
+report.send(out)
+"""
+
+
+def inside_close_after_peer_end(res, gw, rng, m):
+    """'an explicit close from inside is refused' also after the initiating side has closed or dropped its end"""
+    import gc
+
+    how = rng.choice(("close", "drop", "drop_with_callback", "close_error"))
+    label = f"inside close after the initiator's {how}"
+    report = gw.newchannel()
+    ch = gw.remote_exec(INSIDE_CLOSE)
+    ch.send(report)
+    if how == "close":
+        ch.close()
+    elif how == "close_error":
+        ch.close("initiator gives up")
+    elif how == "drop_with_callback":
+        ch.setcallback(lambda item: None)
+        del ch
+    else:
+        del ch
+    gc.collect()
+    res.count("inside_close_attempts")
+    try:
+        out = report.receive(20)
+    except BaseException as e:  # noqa
+        res.violation(m("inside-close-probe-failed"), f"{label}: {type(e).__name__}: {e}")
+        return
+    out = [x.decode() if isinstance(x, bytes) else x for x in out]  # (gateways with switched string coercion)
+    if out != ["refused"] * 3:
+        res.violation(m("inside-close-accepted-after-peer-end"), f"{label}: channel.close() from inside the running code -> {out}")
+    report.close()
+
+
 def run_programs(spec):
     import execnet
     from execnet.gateway_base import RemoteError
@@ -106,6 +154,8 @@ def run_programs(spec):
         for i in range(spec["n"]):
             if res.enough(10):
                 break
+            if i % 15 == 7:
+                inside_close_after_peer_end(res, gw, rng, m)
             form = ("string", "function", "module")[i % 3]
             prog = dsl.gen_program(rng, g, big=(i % 17 == 0))
             if form != "function":
@@ -340,6 +390,24 @@ def decorated_wrapped(channel):
     channel.send(("wrapped", 1))
 
 
+def pure_inner(channel):
+    channel.send(("pure", 3))
+
+
+def counting(f):
+    import functools
+
+    @functools.wraps(f)
+    def wrapper(channel):
+        channel.send("wrapper ran")
+        return f(channel)
+
+    return wrapper
+
+
+wrapped_by_call = counting(pure_inner)  # carries __wrapped__; what would run is the wrapper, a closure
+
+
 def uses_global_statement(channel):
     global CONSTANT
     channel.send(CONSTANT)
@@ -384,7 +452,7 @@ SHAPES = {
     "uses_shadowed_max": ("reject", {}), "uses_shadowed_len": ("reject", {}), "wrong_first": ("reject", {}), "no_args": ("reject", {}),
     "star_args": ("reject", {}), "channel_second": ("reject", {"x": 1}), "star_channel": ("reject", {}), "kwonly_channel": ("reject", {}),
     "starstar_channel": ("reject", {}), "method_like": ("reject", {}), "channel_with_default": ("ok", {}), "closure": ("reject", {}), "lam": ("reject", {}),
-    "decorated_wrapped": ("reject", {}), "uses_global_statement": ("reject", {}), "nested_uses_global": ("reject", {}),
+    "decorated_wrapped": ("reject", {}), "wrapped_by_call": ("reject", {}), "pure_inner": ("ok", {}), "uses_global_statement": ("reject", {}), "nested_uses_global": ("reject", {}),
     "global_augassign": ("reject", {}), "global_store": ("reject", {}), "global_del": ("reject", {}), "attribute_of_global": ("reject", {}),
 }
 
